@@ -253,7 +253,7 @@ type ilScenario struct {
 	typ     string
 	samekey bool
 	twodeps bool
-	round2  string // "same", "other", "pa"
+	round2  string // "same", "other", "pa", "first-other", "all", "first-all" ("all": a global input changes, ClearAll)
 	flusher bool
 }
 
@@ -321,7 +321,7 @@ func ilOlder(val string, key any, deps []string, snap map[string]int) (bool, str
 func runSchedule(sc ilScenario, sched []int) string {
 	features.XDSCacheMaxSize = sc.maxsize
 	features.EnableCDSCaching, features.EnableRDSCaching = true, true
-	w := &ilWorld{cache: model.NewXdsCache(), ver: map[string]int{"SE/ns/a": 0, "DR/ns/b": 0, "PA/ns/a": 0}}
+	w := &ilWorld{cache: model.NewXdsCache(), ver: map[string]int{"SE/ns/a": 0, "DR/ns/b": 0, "PA/ns/a": 0, "GLOBAL": 0}}
 	w.publish()
 	deps := []string{"SE/ns/a"}
 	if sc.twodeps {
@@ -352,6 +352,20 @@ func runSchedule(sc ilScenario, sched []int) string {
 		rounds[1] = "PA/ns/a"
 	case "first-other":
 		rounds[0] = "DR/ns/b"
+	case "all":
+		rounds[1] = "ALL"
+	case "first-all":
+		rounds[0] = "ALL"
+	}
+	// what a value is derived from: the declared dependencies, the global input that no entry declares and no key
+	// carries (mesh config, networks, ambient addresses: invalidated by ClearAll only), and for EDS the
+	// PeerAuthentication that XdsCacheImpl.Clear treats as a dependency of every EDS entry
+	derived := func(deps []string) []string {
+		d := append(append([]string{}, deps...), "GLOBAL")
+		if sc.typ == model.EDSType {
+			d = append(d, "PA/ns/a")
+		}
+		return d
 	}
 	pc := []int{0, 0, 0, 0} // program counters: W1, W2, invalidator, flusher
 	var trace []string
@@ -370,28 +384,23 @@ func runSchedule(sc ilScenario, sched []int) string {
 				trace = append(trace, fmt.Sprintf("W%d.get", p+1))
 				if r != nil {
 					wr.done = true
-					// PeerAuthentication is a dependency of every EDS entry by the rule in XdsCacheImpl.Clear
-					chk := wr.deps
-					if sc.typ == model.EDSType {
-						chk = append(append([]string{}, wr.deps...), "PA/ns/a")
-					}
-					if old, why := ilOlder(ilFull(r.Name), wr.key, chk, wr.snap); old {
+					if old, why := ilOlder(ilFull(r.Name), wr.key, derived(wr.deps), wr.snap); old {
 						return "FAIL stale-writer-hit " + strings.Join(trace, ",") + " " + why
 					}
 				}
 			case 2:
 				trace = append(trace, fmt.Sprintf("W%d.add", p+1))
 				if !wr.done {
-					gd := wr.deps
-					if sc.typ == model.EDSType {
-						gd = append(append([]string{}, wr.deps...), "PA/ns/a")
-					}
-					w.cache.Add(e, &model.PushRequest{Start: wr.start}, &discovery.Resource{Name: ilValue(wr.key, gd, wr.snap)})
+					w.cache.Add(e, &model.PushRequest{Start: wr.start}, &discovery.Resource{Name: ilValue(wr.key, derived(wr.deps), wr.snap)})
 				}
 			}
 		case p == 2:
 			r := pc[2] / 2
-			if pc[2]%2 == 0 {
+			if pc[2]%2 == 0 && rounds[r] == "ALL" {
+				w.ver["GLOBAL"]++
+				w.cache.ClearAll()
+				trace = append(trace, "I.clearall")
+			} else if pc[2]%2 == 0 {
 				w.ver[rounds[r]]++
 				w.cache.Clear(sets.New(cfgKey(rounds[r])))
 				trace = append(trace, "I.clear:"+rounds[r])
@@ -410,11 +419,7 @@ func runSchedule(sc ilScenario, sched []int) string {
 	for _, wr := range ws {
 		e := entry{typ: sc.typ, key: wr.key, deps: hashes(wr.deps), cacheable: true}
 		if r := w.cache.Get(e); r != nil {
-			chk := wr.deps
-			if sc.typ == model.EDSType {
-				chk = append(append([]string{}, wr.deps...), "PA/ns/a")
-			}
-			if old, why := ilOlder(ilFull(r.Name), wr.key, chk, w.pub); old {
+			if old, why := ilOlder(ilFull(r.Name), wr.key, derived(wr.deps), w.pub); old {
 				return "FAIL stale " + strings.Join(trace, ",") + " reader-got=" + r.Name + " " + why
 			}
 		}
@@ -488,6 +493,8 @@ func genInterleave(seed uint64, n int, path string) {
 		{"2", "sds", "0", "1", "other", "0"},
 		{"2", "eds", "1", "0", "pa", "0"},
 		{"2", "rds", "1", "1", "first-other", "1"},
+		{"2", "cds", "1", "0", "all", "0"},
+		{"2", "eds", "0", "1", "first-all", "1"},
 	}
 	for i := 0; i < n; i++ {
 		var sc []string
@@ -495,7 +502,7 @@ func genInterleave(seed uint64, n int, path string) {
 			sc = fixed[i]
 		} else {
 			sc = []string{strconv.Itoa(1 + r.Intn(3)), wire.Pick(r, []string{"eds", "cds", "rds", "sds"}), wire.B(r.Chance(1, 2)),
-				wire.B(r.Chance(1, 2)), wire.Pick(r, []string{"same", "other", "pa", "first-other"}), wire.B(r.Chance(1, 3))}
+				wire.B(r.Chance(1, 2)), wire.Pick(r, []string{"same", "other", "pa", "first-other", "all", "first-all"}), wire.B(r.Chance(1, 3))}
 		}
 		out.Line(append([]string{"case", strconv.Itoa(i)}, sc...)...)
 	}
